@@ -26,6 +26,35 @@ let world_of (w : sworld) : world =
   let cwd = path_of (S (nat_of_int (List.length h))) h v.v_root w.sw_sv.sv_cwd [] in
   { w_fs = w.sw_fs; w_views = [ { v with v_cwd = cwd } ]; w_handles = [] }
 
+(* the shape of a path operand on the specification state: e empty, r the root, d last element "." or "..",
+   s symbolic link (not followed), D directory, F file, n missing last element, x the walk fails earlier *)
+let shape (w : sworld) (p : str) : string =
+  if p = [] then "e" else
+  match klookup w.sw_fs w.sw_sv false false p with
+  | WNode (_, LRoot, _, _) -> "r"
+  | WNode (_, (LDot | LDotDot), _, _) -> "d"
+  | WNode (_, _, _, n) ->
+      (match List.nth_opt w.sw_fs.f_heap (int_of_nat n) with
+       | Some (NSym _) -> "s" | Some (NDir _) -> "D" | Some (NFile _) -> "F" | None -> "?")
+  | WNeg _ -> "n"
+  | WParent _ -> "?"
+  | WErr _ -> "x"
+
+let shapes (w : sworld) (c : call) : string =
+  let sh = shape w in
+  match c with
+  | CMkdir (_, p, _) | CMkdirAll (_, p, _) | COpenFile (_, p, _, _) | CRemove (_, p) | CRemoveAll (_, p)
+  | CReadlink (_, p) | CTruncate (_, p, _) | CChmod (_, p, _) | CChown (_, p, _, _) | CLchown (_, p, _, _)
+  | CChtimes (_, p) | CChdir (_, p) | CStat (_, p) | CLstat (_, p) | CEvalSymlinks (_, p) | CReadDir (_, p)
+  | CReadFile (_, p) | CWriteFile (_, p, _, _) | CSub (_, p) -> sh p
+  | CRename (_, o, n) | CLink (_, o, n) -> sh o ^ sh n
+  | CSymlink (_, t, n) -> (if t = [] then "e" else "t") ^ sh n
+  | _ -> "-"
+
+let cwd_alive (w : sworld) : bool =
+  let v = w.sw_sv.sv_view and h = w.sw_fs.f_heap in
+  is_ancestor (S (nat_of_int (List.length h))) h v.v_root v.v_root w.sw_sv.sv_cwd
+
 let snap mode (w : sworld) = Drv_fs.show_snap mode (world_of w)
 
 let run () =
@@ -45,8 +74,9 @@ let run () =
                let (wi, ri) = impl_step_proj (world_of !w) c in
                let same = show_sres ri = sr
                           && Drv_fs.snapshot_text wi = Drv_fs.snapshot_text (world_of w') in
-               w := w';
-               outs := (Printf.sprintf "%s%s ~%s ~%s" sr ss kf (if same then "T" else "F")) :: !outs) ops;
+               outs := (Printf.sprintf "%s%s ~%s ~%s ~%s ~%s" sr ss kf (if same then "T" else "F") (shapes !w c)
+                          (if cwd_alive w' then "A" else "D")) :: !outs;
+               w := w') ops;
              print_endline (String.concat " | " (List.rev !outs))
          | _ -> print_endline "BADLINE")
     | _ -> print_endline "BADLINE")
